@@ -171,6 +171,212 @@ impl vstd::std_specs::convert::TryFromSpecImpl<Bytes> for ZmqCommand {
 //@|        let ghost old_buf = buf;
 //@ end
 
+
+// ---- READY serialiser (src/codec/command.rs, `From<ZmqCommand> for BytesMut`) ----
+// RFC 23:  command = command-size(1 or 8) command-body ;  flags 0x04 (short) / 0x06 (long)
+//          command-body = name-size(1) "READY" *( prop-name-size(1) prop-name value-size(4) value )
+/// the octets of a String (its UTF-8 encoding)
+pub uninterp spec fn string_bytes(s: &String) -> Seq<u8>;
+pub assume_specification[ String::len ](s: &String) -> (r: usize)
+    ensures r == string_bytes(s).len();
+pub assume_specification[ <String as core::convert::AsRef<[u8]>>::as_ref ](s: &String) -> (r: &[u8])
+    ensures r@ == string_bytes(s);
+pub assume_specification[ <str as core::convert::AsRef<[u8]>>::as_ref ](s: &str) -> (r: &[u8])
+    ensures r@ == str_bytes(s);
+
+impl ZmqCommandName {
+// "READY": contract ASSUMED here (str octets), DISCHARGED by Kani `cmdname_as_str` (complete)
+//@ item src/codec/command.rs :: impl ZmqCommandName / fn as_str
+//@ attr
+//@|    #[verifier::external_body]
+//@ ret r
+//@ spec
+//@|        ensures str_bytes(r) == ready_name(),
+//@ end
+}
+
+pub type PropRef<'a> = (&'a String, &'a Bytes);
+pub open spec fn rfc_prop(kv: PropRef) -> Seq<u8> {
+    seq![string_bytes(kv.0).len() as u8] + string_bytes(kv.0) + be32(b_view(kv.1).len() as u32) + b_view(kv.1)
+}
+pub open spec fn prop_size(kv: PropRef) -> int { (string_bytes(kv.0).len() + 1 + b_view(kv.1).len() + 4) as int }
+pub open spec fn props_size(s: Seq<PropRef>) -> int {
+    s.fold_left(0int, |acc: int, kv: PropRef| acc + prop_size(kv))
+}
+pub open spec fn props_bytes(s: Seq<PropRef>) -> Seq<u8>
+    decreases s.len()
+{
+    if s.len() == 0 { Seq::empty() } else { props_bytes(s.drop_last()) + rfc_prop(s.last()) }
+}
+/// the READY body for the properties in the order `s`
+pub open spec fn rfc_ready_body(s: Seq<PropRef>) -> Seq<u8> {
+    seq![5u8] + ready_name() + props_bytes(s)
+}
+/// the command frame: flags 0x04 + 1 octet size, or 0x06 + 8 octet size, then the body
+pub open spec fn rfc_command_frame(body: Seq<u8>) -> Seq<u8> { rfc_frame(body, false, true) }
+/// every name fits its 1 octet size and every value its 4 octet size
+pub open spec fn props_fit(s: Seq<PropRef>) -> bool {
+    forall|i: int| 0 <= i < s.len() ==> string_bytes((#[trigger] s[i]).0).len() <= 255 && b_view(s[i].1).len() <= 0xffff_ffff
+}
+pub proof fn lemma_ready_step(s: Seq<PropRef>, i: int)
+    requires 0 <= i < s.len(),
+    ensures
+        props_size(s.take(i + 1)) == props_size(s.take(i)) + prop_size(s[i]),
+        props_bytes(s.take(i + 1)) == props_bytes(s.take(i)) + rfc_prop(s[i]),
+        props_size(s.take(i)) >= 0,
+{
+    let t = s.take(i + 1);
+    assert(t.drop_last() =~= s.take(i));
+    assert(t.last() == s[i]);
+    lemma_ready_size_nonneg(s.take(i));
+}
+pub proof fn lemma_ready_size_nonneg(s: Seq<PropRef>)
+    ensures props_size(s) >= 0,
+    decreases s.len()
+{
+    if s.len() > 0 { lemma_ready_size_nonneg(s.drop_last()); }
+}
+pub proof fn lemma_ready_bytes_len(s: Seq<PropRef>)
+    ensures props_bytes(s).len() == props_size(s),
+    decreases s.len()
+{
+    if s.len() > 0 { lemma_ready_bytes_len(s.drop_last()); }
+}
+pub proof fn lemma_ready_take_le(s: Seq<PropRef>, i: int)
+    requires 0 <= i <= s.len(),
+    ensures 0 <= props_size(s.take(i)) <= props_size(s),
+    decreases s.len() - i
+{
+    lemma_ready_size_nonneg(s.take(i));
+    if i < s.len() {
+        lemma_ready_step(s, i);
+        lemma_ready_take_le(s, i + 1);
+    } else {
+        assert(s.take(i) =~= s);
+    }
+}
+/// the closing argument of the serialiser proof: the first pass computed the size of the body that the second
+/// pass wrote (two enumerations of the same map weigh the same), so the size field of the frame is exact
+pub proof fn lemma_ready_final(m: Map<String, Bytes>, s1: Seq<PropRef>, s2: Seq<PropRef>, message_len: int, hdr0: Seq<u8>, out: Seq<u8>)
+    requires
+        s1.unref().to_set() == m.kv_pairs(), s1.no_duplicates(),
+        s2.unref().to_set() == m.kv_pairs(), s2.no_duplicates(),
+        message_len == 6 + props_size(s1),
+        out =~= hdr0 + (seq![5u8] + ready_name() + props_bytes(s2)),
+        0 <= message_len <= 0xffff_ffff_ffff_ffff,
+        hdr0 =~= (if message_len > 255 { seq![6u8] + be64(message_len as u64) } else { seq![4u8, message_len as u8] }),
+    ensures
+        exists|s: Seq<PropRef>| s.unref().to_set() == m.kv_pairs() && s.no_duplicates()
+            && #[trigger] rfc_command_frame(rfc_ready_body(s)) == out,
+{
+    lemma_ready_unref_same(s1, s2);
+    lemma_ready_perm_size(s1, s2);
+    lemma_ready_bytes_len(s2);
+    let body = rfc_ready_body(s2);
+    assert(body.len() == 6 + props_size(s2));
+    assert(body.len() == message_len);
+    assert(rfc_command_frame(body) =~= out);
+}
+/// sequences of references enumerate the same pairs iff their de-referenced images do
+pub proof fn lemma_ready_unref_same(a: Seq<PropRef>, b: Seq<PropRef>)
+    requires a.unref().to_set() == b.unref().to_set(),
+    ensures a.to_set() == b.to_set(),
+{
+    assert forall|x: PropRef| a.to_set().contains(x) == b.to_set().contains(x) by {
+        lemma_ready_unref_contains(a, x);
+        lemma_ready_unref_contains(b, x);
+        assert(a.to_set().contains(x) == a.contains(x));
+        assert(b.to_set().contains(x) == b.contains(x));
+        assert(a.unref().to_set().contains((*x.0, *x.1)) == a.unref().contains((*x.0, *x.1)));
+        assert(b.unref().to_set().contains((*x.0, *x.1)) == b.unref().contains((*x.0, *x.1)));
+        assert(a.unref().to_set().contains((*x.0, *x.1)) == b.unref().to_set().contains((*x.0, *x.1)));
+    }
+    assert(a.to_set() =~= b.to_set());
+}
+pub proof fn lemma_ready_unref_contains(a: Seq<PropRef>, x: PropRef)
+    ensures a.contains(x) == a.unref().contains((*x.0, *x.1)),
+{
+    if a.contains(x) {
+        let i = choose|i: int| 0 <= i < a.len() && a[i] == x;
+        assert(a.unref()[i] == (*x.0, *x.1));
+    }
+    if a.unref().contains((*x.0, *x.1)) {
+        let i = choose|i: int| 0 <= i < a.unref().len() && a.unref()[i] == (*x.0, *x.1);
+        assert(a[i] == x);
+    }
+}
+/// two enumerations of the same map weigh the same
+pub proof fn lemma_ready_perm_size(a: Seq<PropRef>, b: Seq<PropRef>)
+    requires a.no_duplicates(), b.no_duplicates(), a.to_set() == b.to_set(),
+    ensures props_size(a) == props_size(b),
+{
+    let f = |acc: int, kv: PropRef| acc + prop_size(kv);
+    a.lemma_multiset_has_no_duplicates();
+    b.lemma_multiset_has_no_duplicates();
+    broadcast use vstd::seq_lib::group_to_multiset_ensures;
+    assert forall|x: PropRef| a.to_multiset().count(x) == b.to_multiset().count(x) by {
+        assert(a.contains(x) == a.to_set().contains(x));
+        assert(b.contains(x) == b.to_set().contains(x));
+    }
+    assert(a.to_multiset() =~= b.to_multiset());
+    assert(vstd::seq_lib::commutative_foldl(f));
+    vstd::seq_lib::lemma_fold_left_permutation(a, b, f, 0int);
+}
+
+impl ZmqCommand {
+//@ item src/codec/command.rs :: impl From<ZmqCommand> for BytesMut / fn from
+//@ name ZmqCommand::serialize
+//@ inherent
+//@ self-type BytesMut
+//@ attr
+//@|    #[verifier::loop_isolation(false)]
+//@|    #[verifier::rlimit(100)]
+//@ ret r
+//@ spec
+//@|        requires
+//@|            vstd::std_specs::hash::obeys_key_model::<String>(),
+//@|            // every property fits the RFC size fields, and the whole command fits an allocation
+//@|            forall|k: String| #[trigger] command.properties@.contains_key(k) ==> string_bytes(&k).len() <= 255 && b_view(&command.properties@[k]).len() <= 0xffff_ffff,
+//@|            forall|s: Seq<PropRef>| s.unref().to_set() == command.properties@.kv_pairs() && s.no_duplicates() ==> #[trigger] props_size(s) <= 0x3fff_ffff_ffff_ffff,
+//@|        ensures
+//@|            // ONE command frame whose size field is exact, carrying READY and every property exactly once
+//@|            exists|s: Seq<PropRef>| s.unref().to_set() == command.properties@.kv_pairs() && s.no_duplicates()
+//@|                && #[trigger] rfc_command_frame(rfc_ready_body(s)) == bm_view(&r),
+//@ hint start
+//@|        broadcast use vstd::std_specs::hash::group_hash_axioms;
+//@|        let ghost mut h1: Seq<PropRef> = Seq::empty();
+//@|        let ghost mut h2: Seq<PropRef> = Seq::empty();
+//@ loop 1 it1
+//@|            invariant
+//@|                h1 == it1.history(), it1.history() == it1.seq().take(it1.index() as int),
+//@|                it1.index() == it1.seq().len() ==> h1 == it1.seq(),
+//@|                message_len == 6 + props_size(h1),
+//@|                it1.seq().unref().to_set() == command.properties@.kv_pairs(), it1.seq().no_duplicates(),
+//@ loopbody 1
+//@|            proof {
+//@|                lemma_ready_step(it1.seq(), it1.index() as int);
+//@|                lemma_ready_take_le(it1.seq(), it1.index() + 1);
+//@|                assert(props_size(it1.seq()) <= 0x3fff_ffff_ffff_ffff);
+//@|            }
+//@ loopend 1
+//@|            proof { h1 = h1.push((prop, val)); assert(h1 =~= it1.seq().take(it1.index() as int + 1)); }
+//@ loop 2 it2
+//@|            invariant
+//@|                h2 == it2.history(), it2.history() == it2.seq().take(it2.index() as int),
+//@|                it2.index() == it2.seq().len() ==> h2 == it2.seq(),
+//@|                it2.seq().unref().to_set() == command.properties@.kv_pairs(), it2.seq().no_duplicates(),
+//@|                bm_view(&bytes) == hdr0 + (seq![5u8] + ready_name() + props_bytes(h2)),
+//@ loopbody 2
+//@|            proof { lemma_ready_step(it2.seq(), it2.index() as int); }
+//@ loopend 2
+//@|            proof { h2 = h2.push((prop, val)); assert(h2 =~= it2.seq().take(it2.index() as int + 1)); }
+//@ hint before "bytes.put_u8(command_name.len() as u8);"
+//@|        let ghost hdr0 = bm_view(&bytes);
+//@ hint tail
+//@|        proof { lemma_ready_final(command.properties@, h1, h2, message_len as int, hdr0, bm_view(&bytes)); }
+//@ end
+}
+
 impl vstd::std_specs::convert::FromSpecImpl<Bytes> for ZmqMessage {
     open spec fn obeys_from_spec() -> bool { false }
     open spec fn from_spec(v: Bytes) -> Self { arbitrary() }
